@@ -133,11 +133,21 @@ func suiteIndex(o *Out, r *Rng, n int, tier string) {
 		c := idxCase{size: bundle * mult, definedStart: -1}
 		c.fsb = uint64([]int{0, 0, 1, 2, 3}[r.Intn(5)])
 		c.sizes = []uint64{c.size}
-		switch r.Intn(4) {
+		switch r.Intn(6) {
 		case 0:
 			c.sizes = []uint64{c.size * 10, c.size, bundle}
 		case 1:
 			c.sizes = []uint64{bundle, c.size}
+		case 2:
+			if bundle > 1 { // a size smaller than the bundle listed *before* the real one: ignored, not the end of the list
+				c.sizes = []uint64{bundle / 2, c.size}
+				o.Stat("index.too_small_size_listed_first", 1)
+			}
+		case 3:
+			if bundle > 1 {
+				c.sizes = []uint64{c.size * 10, 1, c.size}
+				o.Stat("index.too_small_size_listed_first", 1)
+			}
 		}
 		// blocks: ascending, starting on an index boundary (or at fsb / defined start), with skipped numbers
 		start := c.size * uint64(r.Intn(3))
